@@ -6,6 +6,8 @@ Line-protocol driver for C37 (dispatch hooks over call histories, pipe and HTTP)
   hist <producerBatchLimit> <plain|wirecap|extcap|sticky|pver>  first line of a case (server configuration)
   P <mode> U <declSchema> <void> <lvl> <rid> <unary script>   pipe unary call        (grammar: Drive/C04)
   P <mode> S <method facts> <lvl> <rid> <stream script> IN …  pipe stream call       (grammar: Drive/C06)
+  P <mode> S@<k> …   the same, the serve context being cancelled during turn k;  P <mode> U@ …  unary whose
+  handler cancels the serve context;  P <mode> DEAD  a call on a session cancelled before Serve started
   P <mode> X | P <mode> B                                     unknown method | parameters that do not deserialize
   H <mode> U … | H <mode> X | H <mode> B                      the same over HTTP
   H <mode> I <label> <enc:0|1> <method facts> <lvl> <stream script>     POST /<m>/init
@@ -104,6 +106,11 @@ def step (st : St) (ws : List String) : St × String :=
         match pCall rest with
         | some (c, []) => finishCall st mode (pipeStreamOutcome c.m c.lvl c.rid c.script c.input) ""
         | _ => (st, "bad-op")
+      | "P", "DEAD", [] => (st, "dead")     -- sent on a session whose context was cancelled before Serve
+      | "P", "U@", rest =>                  -- the handler cancels the serve context: the call itself is unaffected
+        match parseUnaryCall ("call" :: "pipe" :: rest) with
+        | some (_, m, lvl, rid, s) => finishCall st mode (pipeUnaryOutcome m lvl rid s) ""
+        | none => (st, "bad-op")
       | "H", "I", label :: enc :: rest =>
         match pBool enc, pMethod rest with
         | some enc, some (m, rest) =>
@@ -145,6 +152,13 @@ def step (st : St) (ws : List String) : St × String :=
               ({ st' with labels := setLabel st'.labels lab }, out)
         | none, some _ => (st, "no-token")
         | _, none => (st, "bad-op")
+      | "P", k, rest =>
+        -- `S@<k>`: a stream call during whose turn k the serve context is cancelled
+        if k.startsWith "S@" then
+          match (k.drop 2).toNat?, pCall rest with
+          | some n, some (c, []) => finishCall st mode (pipeStreamCancelledOutcome c.m c.lvl c.rid c.script c.input n) ""
+          | _, _ => (st, "bad-op")
+        else (st, "bad-op")
       | _, _, _ => (st, "bad-op")
   | _ => (st, "bad-op")
 
